@@ -65,7 +65,7 @@ Definition lens_gett (l : lens) (m : mem) (d : dyn) : res value :=
   if dyn_is_ptr_to (l_S l) d then
     match d_addr d with
     | Some s => lens_get l m s
-    | None => Panic                               (* typed nil pointer: the load faults *)
+    | None => if Nat.eqb (sizeof (l_A l)) 0 then Ok [] else Panic   (* typed nil pointer: a load of at least one byte faults *)
     end
   else Panic.
 
@@ -74,7 +74,7 @@ Definition lens_putt (l : lens) (m : mem) (d : dyn) (a : value) : res (dyn * mem
   if dyn_is_ptr_to (l_S l) d then
     match d_addr d with
     | Some s => '(_, m') <- lens_put l m s a ;; Ok (d, m')
-    | None => Panic
+    | None => if Nat.eqb (List.length a) 0 then Ok (d, m) else Panic   (* typed nil pointer: a store of at least one byte faults *)
     end
   else Panic.
 
